@@ -216,6 +216,13 @@ func (r *Run) clusterSubmit(p *vrt.Proc, c *vproc.Cmd) int {
 	cj.Proc = jp
 	vproc.StartProc(jp, func() int {
 		vrt.Sleep(delay)
+		if _, err := os.Stat(j.MetaPath); err != nil {
+			// the job's directory is gone: mrp was restarted and reset this
+			// attempt while it sat in the queue; the job script fails at once
+			// without touching anything
+			r.Faults["cluster-job-started-after-its-attempt-was-reset"]++
+			return 1
+		}
 		j.StartSeq = vos.NextSeq()
 		r.Jobs = append(r.Jobs, j)
 		cj.Rec = j
